@@ -306,6 +306,40 @@ pub fn run(ctx: &Ctx) {
         "text",
     );
 
+    // ---- A0c: syntax of other languages that this grammar does not derive (and must keep rejecting), next to the nearest
+    // derivable spelling; the reference decides, and for the underivable ones it is also asserted that the reference rejects
+    let near_miss: Vec<(&str, bool)> = vec![
+        ("{\"k\": i1}", false), ("{k: i1}", true), ("{'k': i1}", false), ("{k = i1}", false), ("{i1: i1}", false), ("{k: i1; j: i2}", false),
+        ("a ? b : c", false), ("a && b", false), ("a || b", false), ("not a", false), ("a <> b", false), ("a === b", false), ("a => b", false),
+        ("a ** b", false), ("a // b\n", true), ("a /* b */", false), ("# a\nb", false), ("-- a\nb", false),
+        ("f()", false), ("f(a, b)", false), ("f(a)", true), ("f (a)", true), ("f[a]", false), ("a[0]", false), ("a.[0]", false), ("a.0", true), ("a.(0)", false),
+        ("[i1 i2]", false), ("[i1; i2]", false), ("[i1, i2]", true), ("(i1, i2)", false), ("()", false), ("[]", true), ("{}", true), ("[,]", false), ("{,}", false),
+        ("1", false), ("1.5", false), (".5", false), ("i 1", false), ("i1.5", true), ("f1.5.2", true), ("d1e5", true), ("d1e-5", false), ("i1e5", true),
+        ("0x", false), ("0x1g", false), ("0b102", false), ("0o8", false), ("1_000", false), ("i1_000", true), ("'s'", false), ("\"s", false), ("`s`", false),
+        ("true()", false), ("if a then b", false), ("if a b else c", false), ("if a then b else c", true), ("if a then b elif c then d else e", false),
+        ("if a then b else if c then d else e", true), ("a in", false), ("in a", false), ("a contains", false), ("a in b in c", false), ("a == b == c", true),
+        ("a = = b", false), ("a ! = b", false), ("a >= = b", false), ("a > = b", false), ("!a", true), ("!!a", true), ("- - a", true), ("--a", true), ("a - -b", true),
+        ("a +", false), ("+ a", false), ("+a", false), ("a + + b", false), ("a b", false), ("a, b", false), ("a;", false), (":a", true), (": a", true), ("::a", false),
+        (":1", false), ("a.b.c", true), ("a..b", false), ("a.", false), (".a", false), ("a.:b", false), ("some(a)", true), ("some a", false), ("int", false),
+        ("int()", false), ("int(a)", true), ("int(a, b)", false), ("date_time(a)", true), ("datetime a", false), ("none", true), ("none()", false), ("none(a)", true),
+        ("null", true), ("nil", true), ("True", true), ("TRUE", true), ("@a", false), ("$a", false), ("a$", false), ("a?", false), ("a!", false), ("a~b", false),
+    ];
+    ctx.list(
+        "near-miss-syntax",
+        &near_miss,
+        |(t, derivable), acc| {
+            acc.case(if *derivable { "near-miss:derivable-neighbour" } else { "near-miss:underivable" }, true, || t.to_string());
+            let reference = crate::model::parse::parse_expr(t);
+            if reference.is_ok() != *derivable {
+                // (a slip in this list, not in the crate)
+                return Err(Issue::new("grammar:harness-list", format!("the near-miss list says {t:?} is {}derivable, the reference parser disagrees", if *derivable { "" } else { "not " })));
+            }
+            check_text_against(t, reference)
+        },
+        |(t, _)| json!({"source_text": t}),
+        "text",
+    );
+
     let alpha = alphabet();
     let n = alpha.len() as u64;
 
